@@ -35,7 +35,8 @@ variable {cnf : Cnf} {S : Solver}
 /-- **`topdown_h`.**  For a solver satisfying `SolverSpec`, the hash hypotheses, a node store
 satisfying its contract, an order `varAt` that enumerates the variables of the CNF on levels
 `< numVars`: called at `level` (`rem = numVars - level`) on a valid state `s` whose model
-assigns the variables of all earlier levels, with a sound cache, `topdown_h` returns `r` with
+assigns the variables of all earlier levels and whose stack has at least two frames (as every
+state reachable from `SATSolver::new` has), with a sound cache, `topdown_h` returns `r` with
 * `r` agrees with the CNF on every total assignment extending the current partial model;
 * no path of `r` decides a variable twice;
 * every variable `r` tests occurs in the residual formula, hence is unassigned in the current
@@ -45,8 +46,8 @@ theorem topdownH_correct (spec : SolverSpec cnf S) {NS : NodeStore} {inv : NS.τ
     (hNS : NS.Sound inv) (varAt : Nat → Nat) (hhash : HashSound spec) (hfree : FreeDecide spec)
     (numVars : Nat) (hvarAt : ∀ v, InCnf cnf v → ∃ i, i < numVars ∧ varAt i = v)
     (rem level : Nat) (s : S.σ) (cache : Cache S.κ) (t : NS.τ) (f0 : Frame S.κ) (rest : List (Frame S.κ))
-    (hl : level + rem = numVars) (hI : spec.Inv s) (hfr : spec.frames s = f0 :: rest) (ht : inv t)
-    (hc : CacheOK spec cache) (hlev : ∀ i, i < level → spec.modelOf s (varAt i) ≠ none) :
+    (hl : level + rem = numVars) (hI : spec.Inv s) (hfr : spec.frames s = f0 :: rest)
+    (hrest : rest ≠ []) (ht : inv t) (hc : CacheOK spec cache) (hlev : ∀ i, i < level → spec.modelOf s (varAt i) ≠ none) :
     let res := topdownH S NS varAt rem level s cache t
     (∀ a, Extends a (spec.modelOf s) → res.1.eval a = cnfSat a cnf) ∧
     res.1.free ∧
@@ -56,7 +57,7 @@ theorem topdownH_correct (spec : SolverSpec cnf S) {NS : NodeStore} {inv : NS.τ
     spec.Inv res.2.1 ∧ spec.frames res.2.1 = spec.frames s ∧ CacheOK spec res.2.2.1 ∧ inv res.2.2.2 := by
   rw [spec.modelOf_eq hfr] at hlev ⊢
   obtain ⟨hg, h1, h2, h3, h4⟩ :=
-    topdownH_post spec hNS varAt hhash hfree numVars hvarAt rem level s cache t f0 rest hl hI hfr ht hc hlev
+    topdownH_post spec hNS varAt hhash hfree numVars hvarAt rem level s cache t f0 rest hl hI hfr hrest ht hc hlev
   refine ⟨hg.sem, hg.free, ?_, hg.nonfalse, h1, h2.trans hfr.symm, h3, h4⟩
   intro v hv
   have hu := residual_unset (hg.vars v hv)
@@ -107,13 +108,13 @@ theorem topdownH_correct_semantic_partial (spec : SolverSpec cnf S) (varAt : Nat
     (rem level : Nat) (s : S.σ) (cache : Cache S.κ) (t : List (Nat × Ptr)) (f0 : Frame S.κ)
     (rest : List (Frame S.κ))
     (hl : level + rem = numVars) (hI : spec.Inv s) (hfr : spec.frames s = f0 :: rest)
-    (ht : SemInv semHash t)
+    (hrest : rest ≠ []) (ht : SemInv semHash t)
     (hc : CacheOK spec cache) (hlev : ∀ i, i < level → spec.modelOf s (varAt i) ≠ none) :
     let res := topdownH S (semanticStore semHash negH) varAt rem level s cache t
     (∀ a, Extends a (spec.modelOf s) → res.1.eval a = cnfSat a cnf) ∧ res.1.free ∧
     (∀ v ∈ res.1.vars, spec.modelOf s v = none) :=
   let h := topdownH_correct spec (semanticStore_sound hcf) varAt hhash hfree numVars hvarAt rem level s
-    cache t f0 rest hl hI hfr ht hc hlev
+    cache t f0 rest hl hI hfr hrest ht hc hlev
   ⟨h.1, h.2.1, fun v hv => (h.2.2.1 v hv).2.1⟩
 
 /-! ## the pinned `compile_cnf_topdown` (finding F8) -/
